@@ -7,6 +7,7 @@ CONSTANTS
   MaxJ = 1
   Strict = TRUE
   JumboInside = TRUE
+  ExportUnspecLen = 4
   Variant = "code"
 INVARIANTS Refinement IdempotentInv RunAgrees Tight AfterSort Lemmas RegionAgree RingInv
 
